@@ -46,7 +46,7 @@ def render(spec, prologue="", epilogue="", union=None, actions=None, tags=None):
             out.append(" " + s)
         if r.get("prec"):
             out.append(" %%prec %s" % r["prec"])
-        if actions is not None:
+        if actions is not None and actions[i] is not None:
             out.append(" { %s }" % actions[i])
     out.append(" ;\n%%\n")
     out.append(epilogue)
